@@ -367,6 +367,18 @@ func (n *node) RegisterName(name gen.Atom, pid gen.PID) error {
 	}
 
 	p.name = name
+	// publish the name before looking at the state again (unregisterProcess reads
+	// p.registered, then p.name)
+	p.registered.Store(true)
+
+	if p.isAlive() == false {
+		// the process terminated meanwhile and its unregisterProcess may have missed the name
+		if n.names.CompareAndDelete(name, p) {
+			p.registered.Store(false)
+			n.RouteTerminateProcessID(gen.ProcessID{Name: name, Node: n.name}, gen.ErrUnregistered)
+		}
+		return gen.ErrProcessTerminated
+	}
 
 	return nil
 }
